@@ -138,6 +138,15 @@ def base_specs():
                                                   F('meta', 'Prices', typ='Price', repeat=True), F('meta', 'Zn', typ='ZName'), F('meta', 'M', typ='Memo'),
                                                   F('inline', 'Sub', repeat=True, fields=[F('basic', 'Qty', typ='u16'), F('fixed', 'Tag', n=2)])], root=True)],
                      opts(StringPrefixLenType='u8'), meta=meta))
+    out.append(PSpec('c08_only_array_prefix', [Packet('Root', [F('dyn', 'Name', spelling='string'), F('dyn', 'Names', repeat=True, spelling='string'),
+                                                              F('basic', 'Nums', typ='u16', repeat=True)], root=True)], opts(ArrayPrefixLenType='u8'), meta=meta))
+    out.append(PSpec('c08_only_string_prefix', [Packet('Root', [F('dyn', 'Name', spelling='string'), F('dyn', 'Names', repeat=True, spelling='string'),
+                                                               F('basic', 'Nums', typ='u16', repeat=True)], root=True)], opts(StringPrefixLenType='u32'), meta=meta))
+    out.append(PSpec('c08_words_in_names', [Packet('Root', [F('fixed', 'leftQty', n=8, pad=('right', "'0'")), F('fixed', 'rightSide', n=4, pad=('left', "' '")),
+                                                           F('fixed', 'Qty', n=6, pad=('right', "'*'") if False else ('right', "'0'"), doc='quantity left to execute'),
+                                                           F('lengthof', 'leftover', typ='u16', target='Body', spelling='inline'),
+                                                           F('obj', 'Body', typ='Logout'), F('fixed', 'Tail', n=3, pad=('right', "' '"), doc='left right true false repeat match')], root=True), logout],
+                     opts(), meta=meta))
     out.append(PSpec('c08_strkeys', [Packet('Root', [F('dyn', 'Kind', spelling='string'), F('match', 'P', key='Kind', pairs=[(['A', 'B'], 'Logon'), (['C'], 'Logout')])], root=True),
                                      logon, logout], opts(), meta=meta))
     return out
@@ -185,7 +194,7 @@ def family(tier='quick'):
     # shared zchar entry (which carries its own padding object), used before and after the attributed field, directly and through an alias
     zm = 'MetaData M {\n    zchar[6] ZSym `s`,\n    ZSym ZAlias `a`,\n}\n\nroot packet Root {\n    ZSym BetaTwo,\n%s    ZSym AlphaOne,\n    ZAlias GammaThree,\n    repeat ZSym DeltaFour,\n}\n\npacket Other {\n    ZSym EpsilonFive,\n}\n'
     g = Group('g:converse_meta_zchar', zm % '')
-    g.variants = [('leftpad-on-AlphaOne', zm % "    @leftPad('0')\n"), ('rightpad-on-AlphaOne', zm % "    @rightPad('*')\n")]
+    g.variants = [('leftpad-on-AlphaOne', zm % "    @leftPad('0')\n"), ('rightpad-on-AlphaOne', zm % "    @rightPad(' ')\n")]
     g.converse = ['betatwo', 'gammathree', 'deltafour', 'epsilonfive']
     groups.append(g)
     conv2_base = 'root packet Root {\n    zchar[8] AlphaOne,\n    zchar[12] BetaTwo,\n}\n'
